@@ -99,6 +99,10 @@ func setupFiles(f Filter, exFiles []string) []*regexp.Regexp {
 	}
 	config.VerifSet(cfg)
 	if err := config.GenerateCrawlConfig(); err != nil {
+		if refuseOK {
+			os.RemoveAll(dir)
+			return nil
+		}
 		hkit.EngineError("GenerateCrawlConfig: %v", err)
 	}
 	if err := seencheck.Start(dir); err != nil {
@@ -113,6 +117,9 @@ func setupFiles(f Filter, exFiles []string) []*regexp.Regexp {
 }
 
 var cleanup = func() {}
+
+// refuseOK: a configuration error is an accepted outcome of the next setupFiles call (fault layouts)
+var refuseOK bool
 
 func runUnit(tier string, u unit) *shardOut {
 	res := setup(u.F)
@@ -300,10 +307,11 @@ func main() {
 		"requests_judged": tot.Requests, "evaluations_without_request": tot.NoRequest,
 		"skipped_parent_out_of_scope": tot.Skipped, "panics_in_preprocess": tot.Panics, "panic_example": tot.PanicEx,
 		"units": len(us), "filter_configurations": 32, "positions": pn,
-		"exclusion_file_layouts":       lay.Layouts,
-		"exclusion_file_layout_cases":  lay.Cases,
-		"exclusion_file_layout_domain": "n regexes (1..3) x {one file, split over two files at every point} x {LF, CRLF} x {final newline or not} x {local path, http URL}, each loaded by the real GenerateCrawlConfig; a seed matching only the i-th regex must get no request",
-		"alphabets":                    products, "relative_forms": relForms, "relative_wrappers": textFocus.wrap, "relative_parents": relParents, "filters": filters()[31],
+		"exclusion_file_layouts":                  lay.Layouts,
+		"exclusion_file_layout_cases":             lay.Cases,
+		"exclusion_file_broken_downloads_refused": lay.Refused,
+		"exclusion_file_layout_domain":            "n regexes (1..3) x {one file, split over two files at every point} x {LF, CRLF} x {final newline or not} x {local path, http URL}, each loaded by the real GenerateCrawlConfig; a seed matching only the i-th regex must get no request; plus 6 http downloads that break after 0..n-1 complete lines (the whole length announced): the configuration is refused or every regex is in force",
+		"alphabets":                               products, "relative_forms": relForms, "relative_wrappers": textFocus.wrap, "relative_parents": relParents, "filters": filters()[31],
 		"authorities_of_judged_requests": tot.Hosts, "literal_readings_not_alarmed": notes, "failing_signatures": sigs, "per_unit": per,
 	}, []string{
 		"every request Zeno sends for crawled content is the one preprocess() attaches: archiver.archive sends item.GetURL().GetRequest() unchanged and the WARC client does not follow redirects itself (FollowRedirects unset); read in the code, not executed here (the `world` end-to-end engine of DESIGN.md does not exist in /verif/engine)",
